@@ -199,6 +199,15 @@ static Plan gen_C02(uint64_t seed, Rng &r) {
 static Plan gen_C03(uint64_t seed, Rng &r) {
     Plan p = base_plan("C03", seed, r);
     int nn = 1 + (int)r.below(2);
+    if (r.chance(0.03)) { // a host with many interfaces (or many re-created interface contexts) in one process
+        nn = (int)r.pickl({8, 9, 16, 17, 24, 32, 33});
+        for (int i = 0; i < nn; i++) p.nodes.push_back(rnd_node(r, {GLUE_BARE}));
+        p.family = 5;
+        int nd = (int)r.range(1, 4);
+        for (int i = 0; i < nd; i++) p.ops.push_back(op_discover(r, (int)r.below(3), (int)r.below(2)));
+        p.tail_ms = 100;
+        return p;
+    }
     for (int i = 0; i < nn; i++) p.nodes.push_back(rnd_node(r, {GLUE_BARE, GLUE_LEGACY, GLUE_DARWIN}));
     Mix m;
     m.discover = 30; m.hello = 10; m.reset = 8; m.emit = 2; m.query = 2; m.qlt = 2; m.probe = 2; m.flood = 0; m.raw = 0; m.stray = 3; m.stall = 0;
@@ -294,6 +303,7 @@ static Plan gen_C05(uint64_t seed, Rng &r, uint64_t index) {
 static Plan gen_C06(uint64_t seed, Rng &r) {
     Plan p = base_plan("C06", seed, r);
     NodeCfg n = rnd_node(r, {GLUE_BARE, GLUE_LEGACY, GLUE_DARWIN});
+    if (r.chance(0.1)) n.mtu = r.chance(0.4) ? (uint32_t)r.pickl({575, 574, 562, 561, 500, 400}) : (uint32_t)r.range(400, 575); // C06 holds for every MTU: links smaller than the 576 the other statements start at
     p.nodes.push_back(n);
     if (r.chance(0.3)) p.nodes.push_back(rnd_node(r, {GLUE_BARE}));
     int mapper = (int)r.below(3);
@@ -518,7 +528,7 @@ static Plan gen_C11(uint64_t seed, Rng &r) {
             if (r.chance(0.3)) xid = r.chance(0.15) ? 0 : (int64_t)rnd_seq(r);
             if (r.chance(0.15)) gen = rnd_gen(r);
             if (r.chance(0.1)) mapper = (int)r.below(3);
-            Op o = mk(OP_DISCOVER, rnd_dt(r), {mapper, rnd_bridge(r, mapper), r.chance(0.8) ? 0 : 1, gen, xid, 1, 0, 0});
+            Op o = mk(OP_DISCOVER, rnd_dt(r), {mapper, r.chance(0.1) ? (r.chance(0.5) ? 100 + (int64_t)r.below(p.nodes.size()) : 300 + r.range(0, 5)) : rnd_bridge(r, mapper), r.chance(0.8) ? 0 : 1, gen, xid, 1, 0, 0}); // Ethernet source: the mapper, a bridge, our own address (a reflecting switch), or a one-byte neighbour of it
             int fill = r.chance(0.3) ? (int)r.pickl({0, 1, 2, maxst, maxst - 1}) : (int)r.range(0, maxst);
             int pos;
             switch (r.below(5)) { case 0: pos = -1; break; case 1: pos = 0; break; case 2: pos = fill; break; case 3: pos = fill / 2; break; default: pos = (int)r.range(0, fill); break; }
@@ -730,7 +740,8 @@ static Plan gen_C16(uint64_t seed, Rng &r) {
         else if (x < addw + 0.24) p.ops.push_back(r.chance(0.85) ? mk(OP_A_TCLR, 0, {}) : mk(OP_A_REINIT, 0, {}));
         else if (x < addw + 0.32) p.ops.push_back(mk(OP_A_TCOMPL, 0, {k, (int64_t)r.below(2)}));
         else if (x < addw + 0.40) p.ops.push_back(mk(OP_A_TICK, 0, {}));
-        else p.ops.push_back(mk(OP_A_ADV, 0, {r.chance(0.5) ? r.range(0, 5000) : (r.chance(0.6) ? 1000 * r.pickl({59, 60, 61, 30, 120}) : (r.chance(0.9) ? r.range(0, 200000) : 1000 * big_jump(r)))}));
+        else if (x < addw + 0.42) p.ops.push_back(mk(OP_A_INACT, 0, {})); // the mapping engine's 30 s inactivity deadline gets armed: the tick at or after it empties the table, later ticks must not
+        else p.ops.push_back(mk(OP_A_ADV, 0, {r.chance(0.5) ? r.range(0, 5000) : (r.chance(0.6) ? 1000 * r.pickl({59, 60, 61, 30, 29, 31, 120}) : (r.chance(0.9) ? r.range(0, 200000) : 1000 * big_jump(r)))}));
     }
     return p;
 }
@@ -754,7 +765,9 @@ static Plan gen_C17(uint64_t seed, Rng &r) {
         // retarget node arguments
         switch (o.kind) {
         case OP_EMIT: case OP_QUERY: case OP_QLT: case OP_FETCH: case OP_CHARGE: case OP_FLOOD: o.a[2] = node; break;
-        case OP_PROBE: if (o.a[3] == 100) o.a[3] = 100 + node; if (o.a[4] == 100) o.a[4] = 100 + node; o.a[7] = 0; break;
+        case OP_PROBE: if (o.a[3] == 100) o.a[3] = 100 + node; if (o.a[4] == 100) o.a[4] = 100 + node; o.a[7] = 0;
+            if (r.chance(0.12)) { int64_t nn = (int64_t)p.nodes.size(), sib = 100 + (node + 1 + (int64_t)r.below((uint64_t)nn - 1)) % nn; if (r.chance(0.5)) o.a[0] = sib; if (r.chance(0.7)) o.a[1] = sib; } // sent by a sibling interface of this very host
+            break;
         case OP_RESET: o.a[4] = node; break;
         case OP_DISCOVER: // the history must not depend on what the other segment did: explicit station list
             o.a[5] = r.chance(0.2) ? 2 : 1; o.a[6] = r.range(0, 6); o.a[7] = r.chance(0.5) ? -1 : r.range(0, 6); o.blob = {(uint8_t)node}; break;
@@ -848,6 +861,8 @@ Plan generate_plan_indexed(const std::string &prop, uint64_t verif_seed, uint64_
             Plan p = generate_plan(sib, mix64(seed, 0x51B), tier);
             if (!p.api_world && p.ops.size() < 400) {
                 p.prop = prop; p.family = 50; p.seed = seed;
+                for (auto &n : p.nodes) if (n.mtu < 576) n.mtu = 576; // only C06 is stated for links below 576 bytes
+                if (p.nodes.size() > 8) return generate_plan(prop, seed, tier);
                 p.twin = prop == "C09";
                 if (prop != "C09" && prop != "C19" && prop != "C01" && prop != "C02") for (auto &o : p.ops) { std::vector<Fault> keep; for (auto &f : o.f) if (!fault_is_internal(f.kind)) keep.push_back(f); o.f = keep; }
                 return p;
